@@ -100,3 +100,42 @@ Theorem C01_upwind_periodic_refuted :
   <> k0 QcOps.
 Proof. apply qc_neq. vm_compute. reflexivity. Qed.
 Print Assumptions C01_upwind_periodic_refuted.
+
+(* ---- closed systems, ANY number of steps (Theory/ClosedThy.v).  The closure hypotheses are what the boundary rows impose on the
+   stored ghost cells: no-flux rows give ghost = adjacent cell (C07_noflux_ghost), periodic rows/wrap give ghost = opposite end
+   cell (C03_periodic_wrap).  Existence of the solutions xs (S k) is not part of the model (the sparse solver is not modelled). ---- *)
+From PFV Require Import Boundary Solver BalanceThy ClosedThy.
+Import ListNotations.
+Theorem C01_boundary_flux_cancels : forall (F : FieldOps) (L : FieldLaws F) (m : Mesh F) (T : axis -> cell -> K F) (Fl : fvar F),
+  faces_cancel F m Fl -> boundary_flux F m T Fl = k0 F.
+Proof. exact boundary_flux_cancels. Qed.
+Theorem C01_noflux_steps_conserve : forall (F : FieldOps) (L : FieldLaws F) (m : Mesh F) V T,
+  (forall a, In a (active_axes F m) -> measure_ok F m V T a) -> stencil_ok F m ->
+  forall (bc : BCs F) (alpha : cvar F) (dts : nat -> K F) (sD sC sU : K F) (D u : fvar F) (xs : nat -> cvar F),
+  (forall k, dts k <> k0 F) ->
+  (forall k, is_solution F m bc [TTrans F alpha (dts k) (xs k); TDiff F sD D; TCen F sC u; TUpw F sU u u] (xs (S k))) ->
+  (forall k, noflux_closure F m (xs (S k))) -> wall_velocity_zero F m u ->
+  forall k, sum_cells F m (fun c => kmul F (V c) (kmul F (alpha c) (xs k c)))
+          = sum_cells F m (fun c => kmul F (V c) (kmul F (alpha c) (xs 0%nat c))).
+Proof. exact noflux_steps_conserve. Qed.
+Theorem C01_periodic_steps_conserve : forall (F : FieldOps) (L : FieldLaws F) (m : Mesh F) V T,
+  (forall a, In a (active_axes F m) -> measure_ok F m V T a) -> stencil_ok F m ->
+  (forall a, In a (active_axes F m) -> (1 <= mN F m a)%nat) ->
+  forall (bc : BCs F) (alpha : cvar F) (dts : nat -> K F) (sD sC sU : K F) (D u : fvar F) (xs : nat -> cvar F),
+  (forall k, dts k <> k0 F) ->
+  (forall k, is_solution F m bc [TTrans F alpha (dts k) (xs k); TDiff F sD D; TCen F sC u;
+                                 TUpw F sU (fun _ _ => k0 F) (fun _ _ => k0 F)] (xs (S k))) ->
+  periodic_metric F m -> (forall k, periodic_closure F m (xs (S k))) -> periodic_coeff F m D -> periodic_coeff F m u ->
+  forall k, sum_cells F m (fun c => kmul F (V c) (kmul F (alpha c) (xs k c)))
+          = sum_cells F m (fun c => kmul F (V c) (kmul F (alpha c) (xs 0%nat c))).
+Proof. exact periodic_steps_conserve. Qed.
+Theorem C01_noflux_explicit_steps_conserve : forall (F : FieldOps) (L : FieldLaws F) (m : Mesh F) V T,
+  (forall a, In a (active_axes F m) -> measure_ok F m V T a) ->
+  forall (bc : BCs F) (dts : nat -> K F) (sD sC : K F) (D u : fvar F) (xs : nat -> cvar F),
+  (forall k, xs (S k) = explicit_step F m bc (xs k) (dts k) (fun c => kopp F (divergence F m (flux_of F m sD sC D u (xs k)) c))) ->
+  (forall k, noflux_closure F m (xs k)) -> wall_velocity_zero F m u ->
+  forall k, sum_cells F m (fun c => kmul F (V c) (xs k c)) = sum_cells F m (fun c => kmul F (V c) (xs 0%nat c)).
+Proof. exact noflux_explicit_steps_conserve. Qed.
+Print Assumptions C01_noflux_steps_conserve.
+Print Assumptions C01_periodic_steps_conserve.
+Print Assumptions C01_noflux_explicit_steps_conserve.
